@@ -337,6 +337,16 @@ class RandInfoBuilder(ModelVisitor,RandIF):
         # Summing the array relates all array elements
         for f in e.arr.field_l:
             self.process_fieldref(f)
+        if len(e.arr.field_l) == 0:
+            # The sum of no elements is still a value (0). Refer
+            # to the size, such that the constraint is not dropped
+            self.process_fieldref(e.arr.size)
+            
+    def visit_expr_array_product(self, e):
+        if len(e.arr.field_l) == 0:
+            self.process_fieldref(e.arr.size)
+        else:
+            super().visit_expr_array_product(e)
 
     def visit_expr_fieldref(self, e):
         # If the field is already referenced by an existing randset
